@@ -409,7 +409,9 @@ fn produce(v: &BigInt, how: u64) -> (String, &'static str) {
     match how {
         0 => (lit(v), if fits { "s" } else { "b" }),
         1 => (format!("({}^1)", lit(v)), "b"),
-        _ => (format!("(2^70+{}-2^70)", lit(v)), "b"),
+        2 => (format!("(2^70+{}-2^70)", lit(v)), "b"),
+        // unary minus of the opposite value (`Neg for NInt` normalises: Small when the result fits)
+        _ => (format!("(-({}))", lit(&-v)), if fits { "s" } else { "b" }),
     }
 }
 
@@ -952,7 +954,7 @@ impl Gen {
         }
     }
     fn int_expr(&mut self, v: &BigInt) -> (String, &'static str) {
-        let how = if self.rng.chance(1, 2) { 0 } else { 1 + self.rng.below(2) };
+        let how = if self.rng.chance(1, 2) { 0 } else { 1 + self.rng.below(3) };
         produce(v, how)
     }
     /// an integer that fits an i64 (so that both representations can hold it), often negative
@@ -1704,7 +1706,7 @@ fn main() {
     }
 
     let thorough = args.tier == "thorough";
-    let n_cases: u64 = if thorough { 400_000 } else { 20_000 };
+    let n_cases: u64 = if thorough { 400_000 } else { 28_000 };
     let mut g = Gen {
         extra: vec![],
         rng: Rng::new(args.seed),
@@ -1761,6 +1763,93 @@ fn main() {
         pending.push(case("show(x,s)/freeze-lambda", "(\\ -> (qg := freeze \\n -> F\"{n #x}\"; qg(255)))()".into(), vec![], Render::Canon,
                           "show x s:255".into(), true));
         pending.push(c);
+    }
+
+    // machine-word boundaries in every production (literal / ^1 / difference of bigs / unary minus)
+    // through every integer codec
+    {
+        let two63 = num::pow(BigInt::from(2), 63);
+        let bvals: Vec<BigInt> = vec![-&two63, -&two63 + 1, -&two63 - 1, two63.clone(), &two63 - 1, &two63 + 1,
+                                      -num::pow(BigInt::from(2), 64), num::pow(BigInt::from(2), 64) - 1, BigInt::from(-1), BigInt::from(0)];
+        for v in &bvals {
+            for how in 0..4u64 {
+                let (e, r) = produce(v, how);
+                for b in [2, 8, 10, 16, 36] {
+                    pending.push(case(&format!("str_radix({})", r), format!("str_radix({}, {})", e, b), vec![], Render::Canon,
+                                      format!("str_radix {} {}", v, b), true));
+                    pending.push(case(&format!("int_radix(str_radix({}))", r), format!("int_radix(str_radix({}, {}), {})", e, b, b),
+                                      vec![], Render::Canon, format!("radix_rt {} {}", v, b), true));
+                }
+                for (k, src, base, render) in [
+                    ("str", format!("str({})", e), "d", Render::Canon), ("$", format!("$({})", e), "d", Render::Canon),
+                    ("repr", format!("repr({})", e), "d", Render::Canon), ("print", format!("print({})", e), "d", Render::Output),
+                    ("fd", format!("F\"{{{}}}\"", e), "d", Render::Canon), ("x", format!("F\"{{{} #x}}\"", e), "x", Render::Canon),
+                    ("X", format!("F\"{{{} #X}}\"", e), "X", Render::Canon), ("b", format!("F\"{{{} #b}}\"", e), "b", Render::Canon),
+                    ("o", format!("F\"{{{} #o}}\"", e), "o", Render::Canon),
+                ] {
+                    let c = case(&format!("show({},{})", k, r), src, vec![], render, format!("show {} {}:{}", base, r, v), true);
+                    if c.src.starts_with('F') {
+                        pending.extend(freeze_variants(&c, &[e.clone()]));
+                    }
+                    pending.push(c);
+                }
+                pending.push(case(&format!("int(str(n))"), format!("int(str({}))", e), vec![], Render::Canon, format!("int_rt {}:{}", r, v), true));
+                pending.push(case("show(list)", format!("str([{}, {}])", e, e), vec![], Render::Canon, format!("showlist {}:{},{}:{}", r, v, r, v), true));
+                pending.push(case("json_encode(expr)", format!("json_encode([{}])", e), vec![], Render::JsonText,
+                                  format!("json_enc l1;i{};", v), true));
+                pending.push(case("json_decode(json_encode(expr))", format!("json_decode(json_encode([{}]))", e), vec![], Render::Canon,
+                                  format!("json_rt l1;i{};", v), true));
+            }
+        }
+    }
+    // nasty characters at every position through every text codec, and a single-character sweep
+    {
+        let nasty: Vec<String> = [0xfeffu32, 0, 0xfffd, 0xfffe, 0xffff, 0x2028, 0x2029, 0xa0, 0x200b, 0x202e, 0x301, 0x300, 0x20dd, 0xd7ff, 0xe000,
+                                  0x10ffff, 0x10000, 0x1f600, 1, 0x1f, 0x7f, 0x85, 0x80, 0x7ff, 0x800, 0x22, 0x5c, 0x27, 0x9, 0xa, 0xd]
+            .iter().map(|c| char::from_u32(*c).unwrap().to_string()).chain(["\r\n".to_string(), "\u{feff}\u{feff}".to_string(), "e\u{301}".to_string()]).collect();
+        let mut strings: Vec<String> = vec![];
+        for x in &nasty {
+            strings.push(x.clone());
+            strings.push(format!("{}ab", x));
+            strings.push(format!("a{}b", x));
+            strings.push(format!("ab{}", x));
+        }
+        for st in &strings {
+            let cps = cps_token(st);
+            let b = st.as_bytes().to_vec();
+            for (key, src) in [
+                ("utf8_decode(utf8_encode)", "utf8_decode(utf8_encode($1))"), ("utf8_decode(bytes(s))", "utf8_decode(bytes($1))"),
+                ("utf8~base64", "utf8_decode(base64_decode(base64_encode(utf8_encode($1))))"),
+                ("utf8~hex", "utf8_decode(hex_decode(hex_encode(utf8_encode($1))))"), ("str(s)", "str($1)"), ("$(s)", "$($1)"),
+            ] {
+                pending.push(case(key, src.into(), vec![Bind::Str(st.clone())], Render::Cps, format!("utf8_rt {}", cps), true));
+            }
+            pending.push(case("utf8_decode(valid)", "utf8_decode($1)".into(), vec![Bind::Bytes(b.clone())], Render::Cps,
+                              format!("utf8_decode {}", hx(&b)), true));
+            pending.push(case("utf8_encode(utf8_decode(b))", "utf8_encode(utf8_decode($1))".into(), vec![Bind::Bytes(b.clone())], Render::Canon,
+                              format!("utf8_encode {}", cps), true));
+            pending.push(case("eval(repr(s))", "eval(repr($1))".into(), vec![Bind::Str(st.clone())], Render::Cps,
+                              format!("echo ok u:{}", if st.is_empty() { String::new() } else { cps.clone() }), true));
+            for v in [V::Str(st.clone()), V::Dict(vec![(st.clone(), V::Str(st.clone()))]), V::List(vec![V::Str(st.clone()), V::Null])] {
+                pending.push(case("json_decode(json_encode(v)) via text", "json_decode(json_encode($1))".into(), vec![Bind::Val(v.clone())],
+                                  Render::Canon, format!("json_rt_text {} -", v.token()), true));
+                pending.push(case("json_encode text", "json_encode($1)".into(), vec![Bind::Val(v.clone())], Render::Canon,
+                                  format!("json_text {} -", v.token()), true));
+            }
+        }
+        // single characters: 2000 scalar values spread over all planes (stride 557) plus every boundary
+        let mut sweep: Vec<u32> = (0..2000u32).map(|i| i * 557).filter(|c| *c < 0x110000).collect();
+        sweep.extend_from_slice(BOUNDARY_SCALARS);
+        for c in sweep {
+            if let Some(ch) = char::from_u32(c) {
+                let st = ch.to_string();
+                pending.push(case("utf8_decode(utf8_encode)(sweep)", "utf8_decode(utf8_encode($1))".into(), vec![Bind::Str(st.clone())], Render::Cps,
+                                  format!("utf8_rt {}", c), c >= 0x80));
+                pending.push(case("chr(ord(c))(sweep)", "chr(ord($1))".into(), vec![Bind::Str(st.clone())], Render::Cps, format!("ord_chr {}", c), true));
+            } else {
+                pending.push(case("chr(surrogate)", format!("chr({})", c), vec![], Render::Cps, format!("chr {}", c), true));
+            }
+        }
     }
     pending.push(case("decompress(garbage)", "decompress($1)".into(), vec![Bind::Bytes(vec![1, 2, 3])], Render::Canon, "echo throw".into(), true));
     pending.push(case("decompress(garbage)", "decompress($1)".into(), vec![Bind::Bytes(vec![])], Render::Canon, "echo throw".into(), true));
